@@ -972,6 +972,10 @@ def solve(objfun, x0, h=None, lh=None, prox_uh=None, argsf=(), argsh=(), argspro
         xl = -1e20 * np.ones((n,))  # unconstrained
     if xu is None:
         xu = 1e20 * np.ones((n,))  # unconstrained
+    if np.shape(x0) == (n,) and (np.shape(xl) != (n,) or np.shape(xu) != (n,)):
+        # report bound arrays of the wrong shape now: below they are used for the internal scaling / as a box projection before they are checked
+        exit_info = ExitInformation(EXIT_INPUT_ERROR, "%s bounds must have same shape as x0" % ("lower" if np.shape(xl) != (n,) else "upper"))
+        return OptimResults(None, None, None, None, 0, 0, 0, exit_info.flag, exit_info.message(with_stem=True), None, None)
     if npt is None:
         npt = n + 1
     if rhobeg is None:
